@@ -4,7 +4,7 @@ What `Apply` does to the entry recorded at a given path: a change at or above
 the path installs the corresponding part of its `New`; a change strictly below
 leaves the scalar fields alone; a change elsewhere leaves the path alone.
 -/
-namespace Mutagen.Proofs.Apply
+namespace Mutagen.Proofs.ApplyAt
 open Mutagen.Model
 
 theorem getPath_none (q : Path) : getPath none q = none := by
@@ -185,4 +185,4 @@ theorem apply_preserves (Q : Option Props → Prop) (q : Path) (cs : List Change
       | above => rw [hr] at this; simp only at this; rw [this]; exact hq
       | elsewhere => rw [hr] at this; simp only at this; rw [this]; exact hq
 
-end Mutagen.Proofs.Apply
+end Mutagen.Proofs.ApplyAt
